@@ -18,14 +18,14 @@ import (
 
 // stmtObs is what the engine reported for one executed statement.
 type stmtObs struct {
-	Err      string // "" or an error class
-	ErrText  string
-	Rows     []m.Row
-	Updated  int
-	First    map[string]int64
-	Last     map[string]int64
-	Secondary bool  // a query that the engine resolved through a secondary index
-	Frontier uint64 // last precommitted store tx id after the statement returned
+	Err       string // "" or an error class
+	ErrText   string
+	Rows      []m.Row
+	Updated   int
+	First     map[string]int64
+	Last      map[string]int64
+	Secondary bool   // a query that the engine resolved through a secondary index
+	Frontier  uint64 // last precommitted store tx id after the statement returned
 }
 
 // txObs is the record of one transaction program as executed by one session.
@@ -47,9 +47,8 @@ type txObs struct {
 }
 
 const (
-	errConflict   = "read-conflict"
-	errTransiency = "key-transiency"
-	errOther      = "other"
+	errConflict = "read-conflict"
+	errOther    = "other"
 )
 
 func classify(err error) string {
@@ -62,8 +61,16 @@ func classify(err error) string {
 		return m.ErrNotNull
 	case errors.Is(err, store.ErrTxReadConflict):
 		return errConflict
-	case errors.Is(err, store.ErrCannotUpdateKeyTransiency):
-		return errTransiency
+	case errors.Is(err, sql.ErrCheckConstraintViolation):
+		return m.ErrCheck
+	case errors.Is(err, sql.ErrConstraintNotFound):
+		return m.ErrNoCheck
+	case errors.Is(err, sql.ErrColumnDoesNotExist):
+		return m.ErrNoColumn
+	case errors.Is(err, sql.ErrColumnAlreadyExists):
+		return m.ErrColumn
+	case errors.Is(err, sql.ErrIndexAlreadyExists):
+		return m.ErrIndex
 	}
 	return errOther
 }
